@@ -31,6 +31,16 @@ func svcFile(name string, includes ...string) string {
 
 var fixedPrograms = []fixedProgram{
 	{
+		// names that are reserved in exceptions, or in the argument / result structs of functions,
+		// are ordinary field names in a plain struct; the struct is generated before the exception
+		// and the service, so whatever those leave behind in the process only shows the second time
+		Name: "plain-struct-with-names-reserved-elsewhere",
+		Files: []FileText{
+			{"root.thrift", "struct Aplain {\n  1: optional string error\n  2: optional string error_name\n  3: optional string method_name\n  4: optional string envelope_type\n}\n\nexception Boom {\n  1: optional string why\n}\n\nservice Zsvc {\n  Aplain get(1: string key) throws (1: Boom boom)\n}\n"},
+		},
+		Feat: Feat{Files: 1},
+	},
+	{
 		// includes fan out on two levels: the entry includes two files, and the first of them
 		// (while its sibling is still queued by a walk over the modules) includes three more;
 		// every file has a service, so the order of the walk shows in the plugin request
